@@ -7,6 +7,7 @@ Program nodes (plain tuples; `src`, `l`, `r` are nested program nodes):
   ("chain", l, r)                   ("join", l, r, pred | None)
   ("joinx", l, r, pred | None, (tag, ...))   join on an explicit set of common columns (decoder only)
   ("mat", src, name)                ("xfer", src, engine_index)
+  ("mark", src)                     a user-defined MarkerRelation subclass (extension point; iteration engines only)
 
 Leaf specs (plain tuples):
   (name, cols, rows, engine_index, kind, (min_rows, max_rows), variant)
@@ -21,7 +22,7 @@ import functools
 from .expr import cols_e, cols_p, eval_e, eval_p, fmt_e, fmt_p, from_lib_e, from_lib_p, lib_e, lib_p
 from .tags import name_of, sorted_tags
 
-UNARY = ("calc", "proj", "sel", "dedup", "sort", "slice", "mat", "xfer")
+UNARY = ("calc", "proj", "sel", "dedup", "sort", "slice", "mat", "xfer", "mark")
 BINARY = ("chain", "join", "joinx")
 
 
@@ -103,7 +104,7 @@ def schema(prog, leaves):
         return schema(prog[1], leaves) | {prog[2]}
     if k == "proj":
         return frozenset(prog[2])
-    if k in ("sel", "dedup", "sort", "slice", "mat", "xfer"):
+    if k in ("sel", "dedup", "sort", "slice", "mat", "xfer", "mark"):
         return schema(prog[1], leaves)
     if k == "chain":
         return schema(prog[1], leaves)
@@ -150,6 +151,8 @@ def fmt(prog, leaves=None):
         return f"{fmt(prog[1], leaves)}.mat({prog[2]!r})"
     if k == "xfer":
         return f"{fmt(prog[1], leaves)}.to(E{prog[2]})"
+    if k == "mark":
+        return f"{fmt(prog[1], leaves)}.mark()"
     raise AssertionError(prog)
 
 
@@ -240,7 +243,7 @@ def ev_list(prog, leaves, check_fd=True, memo=None):
         out = join_rows(ev_list(prog[1], leaves, check_fd, memo), ev_list(prog[2], leaves, check_fd, memo), common, prog[3])
     elif k == "joinx":
         out = join_rows(ev_list(prog[1], leaves, check_fd, memo), ev_list(prog[2], leaves, check_fd, memo), prog[4], prog[3])
-    elif k in ("mat", "xfer"):
+    elif k in ("mat", "xfer", "mark"):
         out = ev_list(prog[1], leaves, check_fd, memo)
     else:
         raise AssertionError(prog)
@@ -356,7 +359,7 @@ def ev_bag(prog, leaves, marker_sort=None, memo=None, stats=None):
         rows = join_rows(a.rows, b.rows, common, prog[3])
         det = a.det and b.det
         res = Res(rows, False, det, len(rows) if det else None)
-    elif k in ("mat", "xfer"):
+    elif k in ("mat", "xfer", "mark"):
         s = sub()
         res = Res(s.rows, False, s.det, s.count)
     else:
@@ -418,7 +421,7 @@ def _ev_iter_node(prog, leaves, marker_sort, memo, stats):
         if prog[2] == 0:
             return Res(s.rows, False, s.det, s.count)
         return Res(s.rows, s.ordered, s.det, s.count, (), s.oterms)
-    if k == "mat":
+    if k in ("mat", "mark"):
         s = sub()
         return Res(s.rows, s.ordered, s.det, s.count, (), s.oterms)
     if k == "calc":
@@ -541,7 +544,29 @@ def apply_node(node, operands, env, **opts):
         return rel.materialized(name=node[2])
     if k == "xfer":
         return rel.transferred_to(env.engines[node[2]])
+    if k == "mark":
+        return note_marker()(target=rel)
     raise AssertionError(node)
+
+
+_NOTE = None
+
+
+def note_marker():
+    """A user-defined marker relation (documented extension point): carries no state, changes nothing."""
+    global _NOTE
+    if _NOTE is None:
+        import dataclasses as _dc
+
+        from lsst.daf.relation import MarkerRelation
+
+        @_dc.dataclass(frozen=True)
+        class Note(MarkerRelation):
+            def __str__(self):
+                return f"note({self.target})"
+
+        _NOTE = Note
+    return _NOTE
 
 
 def _ordered_set(tags):
